@@ -86,7 +86,7 @@ func probeStatus(in *Inst, op *Op, t reflect.Type, code int) (int, string) {
 	FillReaders(v)
 	saved := in.Respond
 	in.Respond = func(c *Call) reflect.Value { return v }
-	req := httptest.NewRequest(op.Method, "http://h.example"+in.P.BasePath+concretePath(op.Template), nil)
+	req := httptest.NewRequest(op.Method, "http://h.example"+escapeForURL(in.P.BasePath+concretePath(op.Template)), nil)
 	in.Reset()
 	rec, pan := in.Serve(req)
 	in.Respond = saved
@@ -441,7 +441,7 @@ func CheckC02(p *Pkg, e *Env, r *res.Result) {
 		tg := targets[rapid.IntRange(0, len(targets)-1).Draw(t, "target")]
 		v, raw, g := genResponse(t, p, tg.info, tg.docs)
 		in.Respond = func(c *Call) reflect.Value { return v }
-		req := httptest.NewRequest(tg.op.Method, "http://h.example"+p.BasePath+concretePath(tg.op.Template), nil)
+		req := httptest.NewRequest(tg.op.Method, "http://h.example"+escapeForURL(p.BasePath+concretePath(tg.op.Template)), nil)
 		in.Reset()
 		// a middleware in front of the API may have announced a default Content-Type: a
 		// response with documented content is still written with its documented type
@@ -575,7 +575,7 @@ func CheckC10(p *Pkg, e *Env, r *res.Result) {
 		return
 	}
 	var forced *http.Response
-	client, err := NewClient(p, "http://h.example"+p.BasePath, func(req *http.Request) (*http.Response, error) {
+	client, err := NewClient(p, "http://h.example"+escapedBase(p.BasePath), func(req *http.Request) (*http.Response, error) {
 		if forced != nil {
 			return forced, nil
 		}
